@@ -37,7 +37,10 @@ static int elem_is_live(var x) { int64_t t = ((struct Elem*)x)->tok; return t > 
 bool verif_eq(var a, var b) { return ((struct Elem*)a)->val == ((struct Elem*)b)->val; }
 int verif_cmp(var a, var b) { int64_t x = ((struct Elem*)a)->val, y = ((struct Elem*)b)->val; return x < y ? -1 : x > y ? 1 : 0; }
 bool verif_lt(var a, var b) { return ((struct Elem*)a)->val < ((struct Elem*)b)->val; }
-uint64_t verif_hash(var a) { int64_t k = ((struct Elem*)a)->val; V_ASSERT(k >= 0 && k < ELEM_D, "harness: element value inside the hash domain"); return ELEM_H[k]; }
+/* the object currently used as probe key may be given a CONSTANT hash by the harness (so that the slot
+ * arithmetic of the unit folds); the harness then assumes ELEM_H[its value] equals that constant */
+var elem_probe_key = NULL; uint64_t elem_probe_hash = 0;
+uint64_t verif_hash(var a) { if (a == elem_probe_key) return elem_probe_hash; int64_t k = ((struct Elem*)a)->val; V_ASSERT(k >= 0 && k < ELEM_D, "harness: element value inside the hash domain"); return ELEM_H[k]; }
 var verif_assign(var dst, var src) {
   struct Elem* d = dst; struct Elem* s = src;
   if (d->tok == 0) { d->tok = elem_issue(); }
